@@ -472,7 +472,7 @@ class Conv2D(WeightBiasDelayMixin, Connection):
         """
         return ein.rearrange(
             data,
-            "b n l ... -> b (...) c kh kw l",
+            "b (c kh kw) l ... -> b (...) c kh kw l",
             c=self.channels,
             kh=self.kernel[0],
             kw=self.kernel[1],
